@@ -137,7 +137,9 @@ func (sr *scenRun) evaluate(eps []*endpoint, reliable bool) {
 		}
 		run.Count("must-deliver-checked", int64(st.MustDeliver))
 		run.Count("endpoints-checked", 1)
-		if st.Deliveries == 0 && !sc.Tamper {
+		// (an endpoint whose session was ended by a watchdog of the library while the machine was
+		// stalled is inconclusive as a whole - see sessionEnded - and not judged for liveness)
+		if st.Deliveries == 0 && !sc.Tamper && !e.undecided.Load() {
 			sr.fail("interop/"+e.proto+"/"+sc.Kind+"/nothing-delivered", fmt.Sprintf("endpoint %s received no packet at all", e.name), nil)
 		}
 		for _, f := range fs {
@@ -196,9 +198,11 @@ func (sr *scenRun) evaluate(eps []*endpoint, reliable bool) {
 				sr.fail(key, fmt.Sprintf("endpoint %s: an RTCP APP packet was delivered with content that was never sent", e.name), map[string]any{"app_id": id})
 			}
 		}
-		nSent := len(sr.appSent)
+		// only the APP packets written after this endpoint had joined count (a late joiner whose
+		// start outlasts the rest of the load sees sentinel RTP packets only)
+		nSent := int(sr.appCtr.Load()) - int(e.appAt)
 		sr.appMu.Unlock()
-		if !sc.Tamper && nSent > 20 && len(apps) == 0 {
+		if !sc.Tamper && nSent > 20 && len(apps) == 0 && !e.undecided.Load() {
 			sr.fail("interop/"+e.proto+"/"+sc.Kind+"/rtcp-app-never-delivered", fmt.Sprintf("endpoint %s: none of %d RTCP APP packets arrived", e.name, nSent), nil)
 		}
 
